@@ -23,6 +23,8 @@ type Ctx struct {
 	GroupName  string `json:"groupName,omitempty"`
 	From       string `json:"from,omitempty"`
 	To         string `json:"to,omitempty"`
+	// Big: the context is large (an object / an object list of ~200 KiB), as with real snapshots
+	Big bool `json:"big,omitempty"`
 }
 
 type Handler struct {
@@ -105,6 +107,9 @@ func genCtx(t *rapid.T) Ctx {
 		c.From = rapid.SampledFrom([]string{"v1alpha1", "stable.example.com/v1alpha1", "v1"}).Draw(t, "from")
 		c.To = rapid.SampledFrom([]string{"v1beta1", "stable.example.com/v1", "v2"}).Draw(t, "to")
 	}
+	if (c.Type == "Event" || c.Type == "Synchronization") && rapid.IntRange(0, 15).Draw(t, "big") == 0 {
+		c.Big = true
+	}
 	return c
 }
 
@@ -160,9 +165,19 @@ func render(c Ctx) map[string]any {
 		m["type"] = "Event"
 		m["watchEvent"] = c.WatchEvent
 		m["object"] = map[string]any{"kind": "Pod", "metadata": map[string]any{"name": "p"}}
+		if c.Big {
+			m["object"].(map[string]any)["data"] = map[string]any{"blob": strings.Repeat("0123456789abcdef", 12800)}
+		}
 	case "Synchronization":
 		m["type"] = "Synchronization"
 		m["objects"] = []any{}
+		if c.Big {
+			var objs []any
+			for i := 0; i < 400; i++ {
+				objs = append(objs, map[string]any{"object": map[string]any{"kind": "Pod", "metadata": map[string]any{"name": fmt.Sprintf("p%d", i), "annotations": map[string]any{"note": strings.Repeat("x", 500)}}}})
+			}
+			m["objects"] = objs
+		}
 	case "Group":
 		m["type"] = "Group"
 		m["groupName"] = c.GroupName
@@ -338,7 +353,7 @@ func tail(s string) string {
 	return s
 }
 
-const rule = "generated bash hooks that source the repository's shell_lib.sh (strict mode) and frameworks/shell, defining a generated subset of the documented handler names for the contexts in play (plus optionally __main__, always __config__), each handler logging name/index/current binding and returning a scripted status (a quarter of the successful handlers also read their standard input, which is /dev/null as under the operator; a quarter end with 'exit 0' after changing directory and shell options); binding-context files with 0-5 contexts (1 in 8 files: 9-23 contexts) of every type (onStartup, Schedule, Synchronization, Event x3, Group, Validating, Mutating, Conversion with short/full versions), binding names from a pool incl. dots/dashes and, 1 in 12, names with spaces from the documentation; run by real bash+jq; oracle: Go reference dispatcher (first defined candidate most-to-least specific, else __main__; stop non-zero at first failing/undefined). Non-trivial: a context with >= 2 defined candidates, or a failing/undefined context that is not the last."
+const rule = "generated bash hooks that source the repository's shell_lib.sh (strict mode) and frameworks/shell, defining a generated subset of the documented handler names for the contexts in play (plus optionally __main__, always __config__), each handler logging name/index/current binding and returning a scripted status (a quarter of the successful handlers also read their standard input, which is /dev/null as under the operator; a quarter end with 'exit 0' after changing directory and shell options); binding-context files with 0-5 contexts (1 in 8 files: 9-23 contexts; 1 in 16 Event/Synchronization contexts ~200 KiB large) of every type (onStartup, Schedule, Synchronization, Event x3, Group, Validating, Mutating, Conversion with short/full versions), binding names from a pool incl. dots/dashes and, 1 in 12, names with spaces from the documentation; run by real bash+jq; oracle: Go reference dispatcher (first defined candidate most-to-least specific, else __main__; stop non-zero at first failing/undefined). Non-trivial: a context with >= 2 defined candidates, or a failing/undefined context that is not the last."
 
 func TestDispatch(t *testing.T) {
 	ev.Main(t, ev.Spec[Case]{Property: "C19", Part: "dispatch", Rule: rule, Gen: gen, Run: runCase})
